@@ -7,7 +7,7 @@ import os
 from typing import Union
 
 from cogent3.app.composable import NotCompleted, define_app
-from cogent3.app.typing import SeqsCollectionType, SerialisableType
+from cogent3.app.typing import SeqsCollectionType, SerialisableType, TabularType
 
 
 # (tag, stem) of every record a planned step was asked to process, in order;
@@ -116,6 +116,19 @@ def planned_func(seqs: SeqsCollectionType, tag: str = "", outcomes: dict = None,
         return {"wrong": "type", "stem": stem}
     carried = "" if seen == [stem] else "+carried:" + ",".join(seen[:-1])
     return seqs.rename_seqs(lambda n: f"{n}{tag}{carried}")
+
+
+@define_app
+class seqs_to_table:
+    """sequence names and lengths as a table (the value a tabular writer stores)"""
+
+    def main(self, seqs: SeqsCollectionType) -> TabularType:
+        from cogent3 import make_table
+
+        rows = [[n, len(seqs.get_seq(n))] for n in seqs.names]
+        table = make_table(header=["name", "length"], data=rows)
+        table.source = seqs.info.source
+        return table
 
 
 STEP_CLASSES = (planned, planned2, planned3)
